@@ -40,9 +40,10 @@ Expect(ev) ==
     [] ev.ev = "Generate" -> pc = "generate" /\ gen < Len(ModelOrder(plan.args)) /\ ev.model = ModelOrder(plan.args)[gen + 1]
                              /\ ev.ok = ~(\E i \in DOMAIN plan.args : plan.args[i].model = ev.model /\ plan.args[i].kind \in GenFails)
     [] ev.ev = "Render" -> pc = "render" /\ ev.ok = (plan.fault # "generator")
-    [] ev.ev = "Open" -> pc = "emit" /\ plan.out # "none"
+    [] ev.ev = "Open" -> pc = "open"
     [] ev.ev = "Write" -> pc = "write"
-    [] ev.ev = "Print" -> (ev.kind = "code" /\ pc = "emit" /\ plan.out = "none") \/ (ev.kind = "message" /\ pc = "exit" /\ status = 0)
+    [] ev.ev = "Print" -> (ev.kind = "code" /\ pc = "emit" /\ plan.out = "none" /\ ev.ok = (plan.fault # "encode"))
+                          \/ (ev.kind = "message" /\ pc = "exit" /\ status = 0)
     [] OTHER -> TRUE
 
 \* ---- the model step an event stands for (composition of silent steps where the code has no observable boundary)
@@ -71,7 +72,7 @@ C17Clauses(ev) ==
     [] ev.ev = "Exit" ->
          << <<"C17.status", FaultyPlan, ~FaultyPlan \/ ev.status # 0>>,
             <<"C17.success", ~FaultyPlan, FaultyPlan \/ ev.status = 0>>,
-            <<"C17.no-code", ev.status # 0, ev.status = 0 \/ ~(\E i \in DOMAIN hist : hist[i].ev = "Print" /\ hist[i].kind = "code")>>,
+            <<"C17.no-code", ev.status # 0, ev.status = 0 \/ ~(\E i \in DOMAIN hist : hist[i].ev = "Print" /\ hist[i].kind = "code" /\ hist[i].ok)>>,
             <<"C17.untouched", ev.status # 0 /\ P.out \in {"old", "absent"},
               ~(ev.status # 0 /\ P.out \in {"old", "absent"}) \/ ev.outAfter = P.out>>,
             <<"C17.complete", ev.status = 0 /\ P.out \in {"old", "absent"},
@@ -121,8 +122,9 @@ LoadsOf(arg) == Cardinality({i \in DOMAIN hist : hist[i].ev = "Load" /\ hist[i].
 FirstOfGlob(ev) == ev.ev = "Load" /\ ev.arg \in DOMAIN P.args /\ P.args[ev.arg].kind = "glob" /\ LoadsOf(ev.arg) = 0
 NeedsSilent(ev) == \/ (ev.ev = "Validate" /\ pc = "load" /\ nxt > Len(Order))      \* leaving the load loop
                    \/ (ev.ev = "Render" /\ pc = "generate" /\ gen >= Len(ModelOrder(plan.args)))   \* all generate() calls returned
+                   \/ (ev.ev = "Open" /\ pc = "emit" /\ plan.out # "none")          \* the text was encoded before the target is opened
 Silent == /\ verdict = "ok" /\ drift = 0 /\ l # 0 /\ l <= Len(Events) /\ NeedsSilent(Ev)
-          /\ (IF pc = "load" THEN Load ELSE Generate)
+          /\ (IF pc = "load" THEN Load ELSE IF pc = "generate" THEN Generate ELSE Encode)
           /\ UNCHANGED tvars
 Step == /\ verdict = "ok" /\ l # 0 /\ l <= Len(Events) /\ ~(drift = 0 /\ NeedsSilent(Ev))
         /\ LET cs == Clauses(Ev)
